@@ -213,7 +213,7 @@ def cases():
 
 
 def stage_hyp(ctx):
-    hyp_drive(ctx, cases(), judge, 250 if ctx.tier == "quick" else 8000)
+    hyp_drive(ctx, cases(), judge, 250 if ctx.tier == "quick" else 4500)
 
 
 def stage_boundary(ctx):
@@ -224,7 +224,7 @@ def stage_boundary(ctx):
         ctx.col.count("boundary_stage_skipped")
         return
     strat = st.builds(lambda p, r: {"lon": p["lon"], "lat": p["lat"], "res": r}, boundary.anchor_points(anc), gens.resolutions(2, 29))
-    hyp_drive(ctx, strat, judge, 60 if ctx.tier == "quick" else 2500)
+    hyp_drive(ctx, strat, judge, 60 if ctx.tier == "quick" else 1200)
 
 
 def plan(tier):
